@@ -480,7 +480,13 @@ func checkC09(sc *Scenario, h *History) []Violation {
 			}
 		}
 		// after the attempt the connection is in command mode: the marker is executed
-		if ai < len(x.Markers) && a.Outcome != "longline" {
+		if ai < len(x.Markers) && a.Outcome == "stall" && last.Code == 421 {
+			// 421 is "closing transmission channel" (RFC 5321 4.2.3): a server that says so to a
+			// silent client has given up on the connection and executes nothing more on it
+			if m := replyOf[x.Markers[ai]]; m != nil {
+				v("C09.command-mode", "attempt %d: the silence inside the exchange was answered %s, yet the NOOP after it was executed (%s)", ai, last, m)
+			}
+		} else if ai < len(x.Markers) && a.Outcome != "longline" {
 			if m := replyOf[x.Markers[ai]]; m != nil && m.Code != 250 {
 				v("C09.command-mode", "attempt %d (%s): the NOOP after it was answered %s", ai, a.Outcome, m)
 			}
